@@ -297,7 +297,8 @@ class SimPool:
     def _submit(self, func, iterable, chunksize, star, kind="map"):
         self._check_running()
         batches, chunksize = self._chunks(func, iterable, chunksize, star)
-        job = {"n": len(batches), "results": [None] * len(batches), "left": len(batches), "done": len(batches) == 0, "error": None, "value": [] if not batches else None, "order": [], "kind": kind}
+        self.sim.seq += 1
+        job = {"id": self.sim.seq, "n": len(batches), "results": [None] * len(batches), "left": len(batches), "done": len(batches) == 0, "error": None, "value": [] if not batches else None, "order": [], "kind": kind}
         self.jobs.append(job)
         for i, b in enumerate(batches):
             # the task crosses the process boundary here: one pickle per chunk
@@ -354,7 +355,7 @@ class SimPool:
             func, batch, star = pickle.loads(chunk["payload"])
             out = []
             for ti, args in enumerate(batch):
-                key = (id(chunk["job"]), chunk["index"], ti)
+                key = (chunk["job"]["id"], chunk["index"], ti)
                 sim.tasks_run[key] = sim.tasks_run.get(key, 0) + 1
                 if sim.fault is not None and sim.fault["chunk"] == chunk["gidx"] and sim.fault["task"] == ti:
                     sim.res.fault("worker_memoryerror")
